@@ -139,6 +139,10 @@ def class_exponent(f, mag, rng):
         return rng.randint(f.qmin, f.emin - 1)
     if mag == "minnorm":
         return f.emin
+    if mag == "lownorm":
+        return rng.randint(f.emin + 1, f.emin + f.p)
+    if mag == "anybin":
+        return rng.randint(f.qmin, f.emax)
     if mag == "one":
         return 0
     if mag == "sqrtmax":
@@ -160,6 +164,9 @@ def place(f, sign, E, pat, rng):
 
 
 def operand(f, mag, pat, sign, rng):
+    if mag == "clamp":
+        xmax = f.value_bits((2 ** (f.p // 2) - 1) * 2 ** (f.emax + 1 - f.p // 2))
+        return rng.randint(xmax + 1, f.largest) | (f.sign if sign else 0)
     if mag in ("xmax", "largestC"):
         return special_value(f, mag, pat, rng) | (f.sign if sign else 0)
     return place(f, sign, class_exponent(f, mag, rng), pat, rng)
@@ -174,8 +181,8 @@ def concretise_sum(f, sh, rng):
     big_is_x = gap > 0 or (gap == 0 and rng.random() < 0.5)
     pb, ps = (px, py) if big_is_x else (py, px)
     sb, ss = (sx, sy) if big_is_x else (sy, sx)
-    if mag in ("xmax", "largestC"):
-        b = special_value(f, mag, pb, rng) | (f.sign if sb else 0)
+    if mag in ("xmax", "largestC", "clamp"):
+        b = operand(f, mag, pb, sb, rng)
         small = place(f, ss, f.exponent_of(b) - g, ps, rng)
         if small is None:
             return None
@@ -756,8 +763,20 @@ def run(tier, seed):
         f = F[name]
         # ---- U2: the TLC shapes
         sums, prods, splits, sum3s = ([], []), ([], []), [[]], ([], [], [])
+        dense = ([], [])
+        ndense = ((160 if name == "float16" else 30) if quick else (4000 if name == "float16" else 800))
         for sh in shapes:
             if sh[1] != name:
+                continue
+            if quick and ((sh[0] == "sum" and rng.random() < 0.5) or (sh[0] == "prod" and rng.random() < 0.4)):
+                continue      # quick: a seeded half of the sum shapes / 60% of the product shapes
+            if sh[0] == "proddense":
+                # many random-mantissa pairs inside one (class, class) cell: regions, not only their edges
+                for _ in range(ndense):
+                    x, y = operand(f, sh[2], "rand", rng.getrandbits(1), rng), operand(f, sh[3], "rand", rng.getrandbits(1), rng)
+                    if x is not None and y is not None:
+                        dense[0].append(x)
+                        dense[1].append(y)
                 continue
             for _ in range(reps):
                 if sh[0] == "sum":
@@ -800,6 +819,7 @@ def run(tier, seed):
         submit("sum", f, list(sums), "shapes")
         submit("sum", f, [sq, sq], "shapes-equal")
         submit("prod", f, list(prods), "shapes")
+        submit("prod", f, list(dense), "shapes-dense")
         submit("prod", f, [sq, sq], "shapes-equal")
         submit("split", f, splits, "shapes")
         submit("sum3", f, list(sum3s), "shapes")
